@@ -425,8 +425,9 @@ def pinned_traces(tier):
             setl = lambda i, v: {"op": "click_target", "slide": 0, "shape": 1 + i, "target": (None if v is None else (1 if v == U else 2))}  # noqa: E731
         evs += [setl(0, U), setl(1, U), setl(2, U), {"op": "c06.remember", "slide": 0},
                 setl(1, U + "/other"), {"op": "add_picture", "slide": 0, "img": img, "src": {"via": "stream", "pos": 0}, "size": "none", **box},
-                setl(0, None), {"op": "click_hyperlink", "slide": 0, "shape": 3, "addr": "http://example.com/new"},
+                setl(0, None),
                 {"op": "add_picture", "slide": 0, "img": dict(img, seed=2), "src": {"via": "stream", "pos": 0}, "size": "none", **box},
+                {"op": "click_hyperlink", "slide": 0, "shape": 0, "addr": "http://example.com/new"},
                 {"op": "c06.lookup"}, {"op": "checkpoint", "sink": "seekable"}, {"op": "restart"}, {"op": "c06.lookup"}]
         out.append({"property": ID, "seed": "shared-relationship-%s" % kind, "tier": "pinned", "config": {"pinned": True},
                     "start": [{"deck": "default"}], "events": evs})
